@@ -50,7 +50,7 @@ class C18(Monitor):
             return
         cands = None
         # classification of the offending frame (single-unit steps only: exact attribution)
-        if len(s.units) != 1 or s.trailing >= 9 or s.quirk:
+        if not s.exact or s.quirk:
             return
         f = s.units[0]
         pre = s.pre[0]
